@@ -36,15 +36,18 @@ def search(payload):
             except Exception as ex:   # noqa
                 return {'found': True, 'input': ('int32', v, k), 'observed': f'raised {type(ex).__name__}: {ex}', 'expected': 'round trip', 'tried': tried}
     elif what == 'nickname':
-        for s in ('bob', '  bob ', 'two words', '', '   ', 'a,b', 'East EBB 7'):
+        for s, prior in itertools.product(('bob', '  bob ', 'two words', '', '   ', 'a,b', 'East EBB 7'), (None, 'Old Name')):
             tried += 1
             dev = EBB3Device()
             e = obj_on(dev)
             try:
+                if prior:
+                    e.write_nickname(prior)
                 ok = e.write_nickname(s)
-                e.name = None
-                e.query_nickname()
                 want = s.strip()
+                if (e.name or '') != want:
+                    return {'found': True, 'input': ('write_nickname', s, {'earlier_name': prior}), 'observed': f'name {e.name!r} right after the write', 'expected': f'{want!r}', 'tried': tried}
+                e.query_nickname()
                 got = e.name if e.name is not None else ''
                 if ok is not True or got != want:
                     return {'found': True, 'input': ('write_nickname', s), 'observed': f'{ok!r}, name {e.name!r}', 'expected': f'True, name {want!r}', 'tried': tried}
